@@ -118,10 +118,15 @@ fn decode_inner(buf: &mut BytesMut) -> Result<Option<(RequestId, (Tag, Vec<Contr
         .and_then(|t| t.match_id(Types::Integer as u64))
         .and_then(|t| t.expect_primitive())
     {
-        Some(id) => match parse_uint(id.as_slice()) {
-            Ok((_, id)) => id as i32,
-            _ => return Err(decoding_error),
-        },
+        // MessageID ::= INTEGER (0 .. maxInt), maxInt = 2^31 - 1. Anything else must not be
+        // folded into that range, where it could pass for the ID of a pending operation.
+        Some(id) if id.len() <= 8 && id.first().map_or(true, |b| b & 0x80 == 0) => {
+            match parse_uint(id.as_slice()) {
+                Ok((_, id)) if id <= i32::MAX as u64 => id as i32,
+                _ => return Err(decoding_error),
+            }
+        }
+        Some(_) => return Err(decoding_error),
         None => return Err(decoding_error),
     };
     Ok(Some((msgid, (Tag::StructureTag(protoop), controls))))
